@@ -32,6 +32,8 @@ def run(ctx):
     ctx.guarded('R12c', TPCF, lambda: r12c(ctx))
     ctx.guarded('R12d', 'tokens', lambda: r12d(ctx))
     ctx.guarded('R12e', 'scan path', lambda: r12e(ctx))
+    ctx.rule('R12f', 'get path: every index into the offset table of a cache file header (indices derive from the entry name, the table from the file) is covered by a successful checked lookup or a length comparison')
+    ctx.guarded('R12f', D + 'get_range_from_cache_file', lambda: r12f(ctx))
 
 
 def nontest_sites(ctx, name):
@@ -212,6 +214,48 @@ def r12d(ctx):
     e = [x for (_, _, _, x) in hl.ret_sites()]
     ok = len(e) == 1 and e[0][0] == 'bin' and e[0][1] in ('Mul', 'MulO') and flow.const_eval(e[0][3]) == 4 and e[0][2][0] == 'bin' and e[0][2][1] in ('Add', 'AddO') and flow.const_eval(e[0][2][3]) == 1 and 'chunk_byte_indices' in flow.show(e[0][2][2])
     ctx.check(ok, 'R12d', H + 'header_len', 'formula', '-', 'header_len = (len + 1) * 4 = sum of the token widths')
+
+
+def r12f(ctx):
+    """the slicing of a cache file by its header: indices come from the entry's *name* (range) and index a table read
+    from the file; a renamed or planted entry can make them disagree, so every index into header.chunk_byte_indices must
+    be covered by a successful checked lookup (`.get(i)`) of an index at least as large, or by a length comparison"""
+    F = ctx.F
+    if getattr(F, 'config', 'rel') != 'rel':
+        return
+    a = an(F.body(D + 'get_range_from_cache_file'))
+    fn = a.path
+    is_tab = lambda z: flow.mentions(z, lambda y: y[0] == 'field' and y[2] == 'chunk_byte_indices')
+    gets = [c for c in a.calls() if sg(a.term(c).get('fn', '')).split('::')[-1] == 'get' and len(a.term(c)['args']) == 2 and is_tab(a.arg(c, 0))]
+    guards = {}      # printed index expression -> edges on which table.get(index) succeeded
+    for g in gets:
+        ed = list(a.some_edges(a.variant_edges(g, 'core::option::Option<'))) + list(a.some_edges(a.dest_variant_edges(g)))
+        guards.setdefault(flow.show(a.arg(g, 1)), []).extend(ed)
+    # `table.get(i).ok_or(err)?` (the checked lookup is an indexing expression in the value flow)
+    for c in a.calls():
+        if sg(a.term(c).get('fn', '')).split('::')[-1] in ('ok_or', 'ok_or_else') and a.term(c)['args']:
+            v = a.arg(c, 0)
+            if v[0] == 'index' and is_tab(v[1]):
+                guards.setdefault(flow.show(v[2]), []).extend(success_edges(a, c))
+    n = 0
+    for cb in a.calls('core::ops::index::Index::index', 'core::slice::index::index', 'core::ops::index::IndexMut::index_mut'):
+        base, idx = a.arg(cb, 0), a.arg(cb, 1)
+        if not is_tab(base):
+            continue
+        n += 1
+        need = [idx]
+        if idx[0] == 'agg' and 'Range' in idx[2]:
+            need = [c for nm_, c in idx[3] if nm_ in ('start', 'end')]
+        elif idx[0] == 'call' and 'Range' in idx[1] and sg(idx[1]).endswith('::new'):
+            need = list(idx[2][:2])
+        ok = True
+        for x in need:
+            ed = guards.get(flow.show(x), [])
+            lt = edges_where(a, lambda op, l, r: op in ('Lt', 'Le') and flow.eqv(l, x) and 'len' in flow.show(r) and is_tab(r))
+            ok = ok and bool(ed or lt) and a.cfg.must_pass(cb, via_edges=list(ed) + list(lt))
+        ctx.check(ok, 'R12f', fn, 'table index', a.loc(cb), 'the index into the header\'s offset table is covered by a successful checked lookup of the same index (or a length comparison)',
+                  'the header\'s offset table is indexed with a value derived from the entry\'s name without a bound check: a renamed or planted cache entry whose name claims a wider range than its header holds panics the cache on get')
+    ctx.floor('R12f', 'indexings of header.chunk_byte_indices in get_range_from_cache_file', n, 1)
 
 
 def r12e(ctx):
